@@ -547,6 +547,11 @@ def mutations_of(rng, fields, cfg, modname, full):
                 muts.append({"kind": "foreign", "path": path, "key": FOREIGN, "value": v, "cls": extra})
             if extra == "normal" and (full or rng.random() < 0.3):
                 muts.append({"kind": "foreign", "path": path, "key": FOREIGN, "value": rng.choice(LEAFLESS_VALUES), "cls": "leafless"})
+            # typos of the DEFINED sibling keys: truncations (proper string prefixes: `epoch` for `epochs`) and extensions (`epochs2`, `epochs_`)
+            if extra in ("normal", "classdict"):
+                for name, variant in typo_names(rng, sibling_names(fields, cfg, modname, path, extra), full):
+                    muts.append({"kind": "foreign", "path": path, "key": name, "value": copy.deepcopy(rng.choice([1, "w", [1], None, 2.5])),
+                                 "cls": extra, "variant": variant})
         elif kind == "required":
             muts.append({"kind": "remove", "path": path})
             muts.append({"kind": "null", "path": path})
@@ -564,6 +569,46 @@ def mutations_of(rng, fields, cfg, modname, full):
     # a mutation must not change which subcommands are selected on the way to its position (implicit selection by section):
     # otherwise it is a different configuration, not a single fault
     return [m for m in muts if sections_still_selected(fields, mutate(cfg, m), modname, m["path"][:-1] if m.get("cls") == "unselected" else m["path"])]
+
+
+def sibling_names(fields, cfg, modname, path, cls):
+    """the keys defined at a mapping position (arguments, groups, the subcommand key and names; the three keys of a class specification)"""
+    if cls == "classdict":
+        return ["class_path", "init_args", "dict_kwargs"]
+    try:
+        lf = level_fields(fields, cfg, modname, path)
+    except Exception:  # noqa: BLE001
+        return []
+    if lf is None:
+        return []
+    names = [n for n, _ in lf]
+    s = sub_of(lf)
+    if s:
+        names += [c for c, _ in s[1]["choices"]]
+    return names
+
+
+def typo_names(rng, names, full):
+    """(foreign name, variant) pairs derived from defined names: proper prefixes and extensions that are not themselves defined"""
+    out = []
+    pool = list(names) if full else (rng.sample(names, min(2, len(names))) if names else [])
+    for n in pool:
+        cands = []
+        if len(n) >= 2:
+            cands.append((n[:-1], "truncated"))
+        if "_" in n.strip("_"):
+            cands.append((n.split("_")[0], "truncated"))
+        if len(n) >= 4:
+            cands.append((n[: len(n) // 2], "truncated"))
+        cands.append((n + rng.choice(["2", "_", "s"]), "extension"))
+        for t, v in cands:
+            if t and t not in names and (t, v) not in out and not t.endswith("+"):
+                out.append((t, v))
+    if not full:
+        tr = [x for x in out if x[1] == "truncated"]
+        ex = [x for x in out if x[1] == "extension"]
+        out = (rng.sample(tr, min(2, len(tr))) if tr else []) + (rng.sample(ex, 1) if ex else [])
+    return out
 
 
 def sections_still_selected(fields, cfg, modname, path):
@@ -696,6 +741,8 @@ def render_argv(rng, fields, kvs, prefix=""):
         if node is None:
             if k in choices:
                 continue
+            if any(n.startswith(k) for n in fmap) or any(("print_config".startswith(k), "help".startswith(k), "cfg".startswith(k))):
+                raise Inexpressible()      # `--epoch=1` IS `--epochs=1` for argparse (abbreviation): not a foreign key on a command line
             args.append("%s=%s" % (opt, leaf_txt(v) if not isinstance(v, (dict, list)) else jtxt(v)))
             continue
         kind = node["k"]
@@ -715,7 +762,12 @@ def render_argv(rng, fields, kvs, prefix=""):
             else:
                 raise Inexpressible()
         elif kind == "class":
-            if isinstance(v, dict) and set(v) <= {"class_path", "init_args"} and isinstance(v.get("class_path"), str) and isinstance(v.get("init_args", {}), dict) and rng.random() < 0.6:
+            cls_params = None
+            if isinstance(v, dict) and isinstance(v.get("class_path"), str):
+                cls_params = dict((c, [n for n, _ in f]) for c, f in node["classes"]).get(v["class_path"].rsplit(".", 1)[-1])
+            known_only = cls_params is not None and isinstance(v.get("init_args", {}), dict) and all(p in cls_params for p in v.get("init_args", {}))
+            # (a foreign init_args key given as `--m.init_args.epoch=1` would be an abbreviation for the per-class parser: whole JSON then)
+            if isinstance(v, dict) and set(v) <= {"class_path", "init_args"} and isinstance(v.get("class_path"), str) and known_only and rng.random() < 0.6:
                 args.append("%s=%s" % (opt, v["class_path"]))
                 for p, pv in v.get("init_args", {}).items():
                     mid = ".init_args." if rng.random() < 0.5 else "."
@@ -1123,6 +1175,35 @@ def table_of_spec(fields, prefix="", dotted=""):
 
 
 # ---------------------------------------------------------------- the check
+def branch_probes(parser, level=""):
+    """[(level, key, _is_branch_key(parser, key))] for keys around the destinations of every parser level: their dotted prefixes,
+    truncations by one character (no "." boundary), extensions, the destinations themselves"""
+    from jsonargparse._actions import _ActionSubCommands, _is_branch_key, filter_default_actions
+
+    out = []
+    dests, choices = [], {}
+    for a in filter_default_actions(parser._actions):
+        if isinstance(a, _ActionSubCommands):
+            choices = dict(a._name_parser_map)
+        if a.dest not in ("cfg", "help") and not a.dest.endswith(".help"):
+            dests.append(a.dest)
+    keys = []
+    for d in dests:
+        parts = d.split(".")
+        for i in range(1, len(parts) + 1):
+            k = ".".join(parts[:i])
+            keys += [k, k[:-1], k + "2", k + "_"]
+    seen = set()
+    for k in keys:
+        if not k or k in seen or k.endswith(".") or k.split(".")[0] in choices:
+            continue
+        seen.add(k)
+        out.append((level, k, bool(_is_branch_key(parser, k))))
+    for c, sp in choices.items():
+        out.extend(branch_probes(sp, level + c + ":"))
+    return out
+
+
 def model_batch(ctx: Ctx, batch):
     """one driver run for a batch of cases: per case [spec, table, validate x configurations]; returns per case (table, verdicts)"""
     lines, spans = [], []
@@ -1130,6 +1211,8 @@ def model_batch(ctx: Ctx, batch):
         start = len(lines)
         lines.append({"op": "spec", "fields": case.wire, "load": []})
         lines.append({"op": "table"})
+        case.probes = branch_probes(case.parser)
+        lines.append({"op": "branch", "keys": [[l, k] for l, k, _ in case.probes]})
         for c in cfgs:
             lines.append({"op": "validate", "cfg": wire_val(c)})
         spans.append((start, len(lines)))
@@ -1140,7 +1223,14 @@ def model_batch(ctx: Ctx, batch):
             raise
         ctx.tie_break("correspondence Validate not runnable (model does not build)", str(ex)[:500])
         return [(None, [None] * len(cfgs)) for _, _, cfgs in batch]
-    return [(out[a + 1], out[a + 2:b]) for a, b in spans]
+    for (case, _, _), (a, b) in zip(batch, spans):
+        # `_is_branch_key` of the real parser vs the model's string-level rule (the "." boundary)
+        ctx.count(len(case.probes))
+        bad = [(l, k, r, m) for (l, k, r), m in zip(case.probes, out[a + 2]) if r != m]
+        if bad:
+            ctx.tie_break("correspondence Validate (isBranchKey vs _is_branch_key) disagrees: key %r at level %r: code %s, model %s" % (bad[0][1], bad[0][0], bad[0][2], bad[0][3]),
+                          json.dumps({"disagreements": bad[:10], "spec": case.ph(case.fields)}, default=repr)[:1800])
+    return [(out[a + 1], out[a + 3:b]) for a, b in spans]
 
 
 def process_case(ctx: Ctx, case: Case, muts, cfgs, mt, model, channels_per_mut, tmpdir, stats):
@@ -1176,7 +1266,7 @@ def process_case(ctx: Ctx, case: Case, muts, cfgs, mt, model, channels_per_mut, 
                 continue
             ctx.count()
             ctx.hist("channel", ch)
-            ctx.hist("mutation", mut["kind"] + ("/" + mut["cls"] if mut and mut.get("cls") else "") if mut else "valid")
+            ctx.hist("mutation", (mut["kind"] + ("/" + mut["cls"] if mut.get("cls") else "") + ("/" + mut["variant"] if mut.get("variant") else "")) if mut else "valid")
             replay = {"kind": "oracle", "spec": case.fields, "cfg": case.ph(case.cfg), "mut": case.ph(mut) if mut else None, "channel": ch,
                       "input": case.ph(list(res[2:])) if len(res) > 2 and ch in ("argv", "env") else None}
             if ch in ("object", "object_nodef") and mres is not None:
@@ -1282,7 +1372,7 @@ def run(ctx: Ctx):
     repo_python_path()
     ctx.rule = ("generated parsers (2-5 top-level fields, depth <= 3) over typed leaves {int,str,bool,float,Optional[int],List[int]}, groups in the four "
                 "declaration styles, class-typed arguments (abstract base, 1-2 subclasses, nested parameters), lists of leaves/dataclasses/classes and "
-                "subcommands; one valid configuration per parser; every single-fault mutation (foreign key at every mapping position incl. next to "
+                "subcommands; one valid configuration per parser; every single-fault mutation (foreign key - an unrelated name, truncations of the defined sibling keys (proper string prefixes) and extensions of them - at every mapping position incl. next to "
                 "class_path, inside init_args, list items, sections; required key removed / nulled; group or section holding required keys removed; "
                 "required subcommand removed) through channels {parse_object, parse_string json/yaml, parse_path/--cfg file, argv, environment "
                 "variables, environment config}; non-trivial = a (parser, mutation, channel) triple that the code rejects naming the key; distinct by canonical JSON")
@@ -1310,14 +1400,17 @@ def run(ctx: Ctx):
             raise MachineryError("generated parser could not be built: %r" % (ex,))
     known_done = False
     done = 0
-    chunk = ctx.budget(12, 40)
+    chunk = ctx.budget(12, 20)
     for c0 in range(0, len(cases), chunk):
         batch = []
         for case, fixed_muts in cases[c0:c0 + chunk]:
             full = ctx.thorough or case.origin == "corpus"
             muts = [rename_mod(m, MODPH, case.modname) for m in fixed_muts] if fixed_muts is not None else mutations_of(ctx.rng, case.fields, case.cfg, case.modname, full)
-            if not ctx.thorough and fixed_muts is None and len(muts) > 40:
-                muts = ctx.rng.sample(muts, 40)
+            if not ctx.thorough and fixed_muts is None and len(muts) > 44:
+                typos = [m for m in muts if m.get("variant")]
+                rest = [m for m in muts if not m.get("variant")]
+                typos = ctx.rng.sample(typos, min(len(typos), 20))
+                muts = typos + ctx.rng.sample(rest, min(len(rest), 44 - len(typos)))
             ctx.hist("mutations_per_case", min(len(muts) // 10 * 10, 100))
             batch.append((case, muts, [case.cfg] + [mutate(case.cfg, m) for m in muts]))
         answers = model_batch(ctx, batch)            # one driver run per batch
